@@ -79,11 +79,13 @@ def make_special_exc(kind, tag):
     """Exception types the library itself gives a meaning to, raised by a step of a transfer that was NOT cancelled (e.g. a
     source stream fed by another, cancelled, future): concurrent.futures.CancelledError (= s3transfer's CancelledError) and
     FatalError.  They are failures like any other."""
-    if kind not in ('cancelled_exc', 'fatal_exc'):
+    if kind not in ('cancelled_exc', 'fatal_exc', 'systemexit', 'generatorexit'):
         return None
     from s3transfer.exceptions import CancelledError, FatalError
 
-    base = CancelledError if kind == 'cancelled_exc' else FatalError
+    # (SystemExit - a callback or signal handler calling sys.exit() - and GeneratorExit: BaseExceptions that are neither an Exception
+    # nor a KeyboardInterrupt)
+    base = {'cancelled_exc': CancelledError, 'fatal_exc': FatalError, 'systemexit': SystemExit, 'generatorexit': GeneratorExit}[kind]
     cls = type('Tagged' + base.__name__, (base,), {})
     e = cls(tag)
     e.tag = tag
@@ -161,6 +163,8 @@ class Director:
         self.on_cancel_point = None  # callable(plan) installed by the scenario
         self.points = 0
         self.keys_seen = []
+        self.send_gate = False
+        self.key_stage = {}  # boundary key -> stage of the thread that reached it first (submission / request / io / None = a user thread)
         self.disabled = False
 
     # ------------------------------------------------------------------
@@ -180,7 +184,8 @@ class Director:
         return None
 
     def note_raised(self, f, key, phase, **extra):
-        rec = {'tag': f['tag'], 'key': key, 'phase': phase, 'kind': f['kind'], 'n': self.log.counter()}
+        rec = {'tag': f['tag'], 'key': key, 'phase': phase, 'kind': f['kind'], 'n': self.log.counter(),
+               'stage': getattr(threading.current_thread(), 'vf_stage', None)}
         rec.update(extra)
         with self._lock:
             self.raised.append(rec)
@@ -196,6 +201,7 @@ class Director:
             self.points += 1
             if phase == 'before':
                 self.keys_seen.append(key)
+            self.key_stage.setdefault(key, getattr(threading.current_thread(), 'vf_stage', None))
         for h in self.hooks:
             h(key, phase, info)
         cp = self.cancel_plan
@@ -239,6 +245,14 @@ class Director:
                     self.cancel_fired = {'key': key, 'phase': phase}
             if fire and self.on_cancel_point:
                 self.on_cancel_point(cp)
+        # a gate that names these places explicitly ('.send#' in its match) holds the transport between two reads of the body
+        if self.park_pred is not None and '.send#' in key and self.send_gate and self.park_pred(key, phase):
+            ev = threading.Event()
+            with self._lock:
+                self.parked[(key, phase)] = (ev, {})
+            self.log.add('park', key=key, phase=phase)
+            ev.wait()
+            self.log.add('unpark', key=key, phase=phase)
 
     # -- parking -----------------------------------------------------------
     def parked_keys(self):
@@ -299,6 +313,8 @@ class GateController(threading.Thread):
         self.stop_flag = False
         self.rng = random.Random(director.rng.random())
         director.park_pred = self._pred
+        ms = self.match if isinstance(self.match, (list, tuple)) else [self.match]
+        director.send_gate = any('.send#' in m for m in ms)
 
     def _pred(self, key, phase):
         matches = self.match if isinstance(self.match, (list, tuple)) else [self.match]  # any of several substrings
